@@ -54,35 +54,76 @@ def splitSemi : List String → List (List String)
     | [] => [[t]]
     | g :: gs => (t :: g) :: gs
 
-/-- lines: `group OP ; OP ; …` (one loop turn), `cfg LIFETIME SLOTS` (new cache), `lookup c k`, `ok k v`, `fail k`, `cancel c`, `adv dt`; `err` = not a behaviour -/
-def handle (st : Option (Config × State)) (line : String) : Option (Config × State) × String :=
-  let go (cfg : Config) (s : State) (op : Op) : Option (Config × State) × String :=
-    match step cfg s op with
-    | some (s', e) => (some (cfg, s'), showState s' e)
-    | none => (st, "err")
+/-- driver state: one cache, or several instances (`mcfg`) -/
+inductive DS where
+  | none
+  | one (cfg : Config) (s : State)
+  | many (m : Multi)
+
+def showMulti (m : Multi) (j : Nat) (e : List Ev) : String :=
+  joinWith " || " ((List.range m.length).map fun i =>
+    match m[i]? with
+    | some (_, s, _) => showState s (if i == j then e else [])
+    | Option.none => "?")
+
+def pairs : List Nat → Option (List Config)
+  | [] => some []
+  | l :: n :: r => (pairs r).map (⟨l, n⟩ :: ·)
+  | _ => Option.none
+
+/-- lines: `cfg LIFETIME SLOTS` (one cache) | `mcfg L0 S0 L1 S1 …` (several instances, answers are the instances' lines joined by
+` || `), then `lookup c k`, `ok k v`, `fail k`, `cancel c`, `adv dt`, `group OP ; OP ; …` (one loop turn); with several instances
+every op but `adv` is addressed: `at J OP…`; `err` = not a behaviour -/
+def handle (st : DS) (line : String) : DS × String :=
   match words line, st with
-  | "group" :: toks, some (cfg, s) =>
+  | "cfg" :: [l, n], _ =>
+    match l.toNat?, n.toNat? with
+    | some l, some n => (.one ⟨l, n⟩ init, showState init [])
+    | _, _ => (st, "bad-op")
+  | "mcfg" :: r, _ =>
+    match (nats? r).bind pairs with
+    | some cfgs => let m := Multi.start cfgs; (.many m, showMulti m cfgs.length [])
+    | Option.none => (st, "bad-op")
+  | "group" :: toks, .one cfg s =>
     match (splitSemi toks).mapM parseOp with
     | some ops =>
       match turn cfg s s ops with
-      | some (s', e) => (some (cfg, s'), showState s' e)
-      | none => (st, "err")
-    | none => (st, "bad-op")
-  | ["cfg", l, n], _ =>
-    match l.toNat?, n.toNat? with
-    | some l, some n => (some (⟨l, n⟩, init), showState init [])
+      | some (s', e) => (.one cfg s', showState s' e)
+      | Option.none => (st, "err")
+    | Option.none => (st, "bad-op")
+  | toks, .one cfg s =>
+    match parseOp toks with
+    | some op =>
+      match step cfg s op with
+      | some (s', e) => (.one cfg s', showState s' e)
+      | Option.none => (st, "err")
+    | Option.none => (st, "bad-op")
+  | ["adv", dt], .many m =>
+    match dt.toNat? with
+    | some dt =>
+      match mstep m (.advance dt) with
+      | some (m', _) => (.many m', showMulti m' m.length [])
+      | Option.none => (st, "err")
+    | Option.none => (st, "bad-op")
+  | "at" :: j :: "group" :: toks, .many m =>
+    match j.toNat?, (splitSemi toks).mapM parseOp with
+    | some j, some ops =>
+      match m[j]? with
+      | some (cfg, s, tr) =>
+        let busy := ops.any fun | .lookup c _ => m.busy c | _ => false
+        if busy then (st, "err") else
+        match turn cfg s s ops with
+        | some (s', e) => let m' := m.set j (cfg, s', tr ++ e); (.many m', showMulti m' j e)
+        | Option.none => (st, "err")
+      | Option.none => (st, "err")
     | _, _ => (st, "bad-op")
-  | [cmd, a, b], some (cfg, s) =>
-    match cmd, a.toNat?, b.toNat?, parseVal b with
-    | "lookup", some c, some k, _ => go cfg s (.lookup c k)
-    | "ok", some k, _, some v => go cfg s (.loadOk k v)
-    | _, _, _, _ => (st, "bad-op")
-  | [cmd, a], some (cfg, s) =>
-    match cmd, a.toNat? with
-    | "fail", some k => go cfg s (.loadFail k)
-    | "cancel", some c => go cfg s (.cancelCaller c)
-    | "adv", some dt => go cfg s (.advance dt)
+  | "at" :: j :: toks, .many m =>
+    match j.toNat?, parseOp toks with
+    | some j, some op =>
+      match mstep m (.at j op) with
+      | some (m', e) => (.many m', showMulti m' j e)
+      | Option.none => (st, "err")
     | _, _ => (st, "bad-op")
   | _, _ => (st, "bad-op")
 
-def main : IO Unit := foldLines (none : Option (Config × State)) handle
+def main : IO Unit := foldLines DS.none handle
